@@ -1,6 +1,8 @@
 import Gaftools.Gen.MergeNodes
 import Gaftools.Gen.Tables
 import Gaftools.Gen.IsStable
+import Gaftools.Gen.IsSecondary
+import Gaftools.Model.Stat
 import Gaftools.Model.Gfa
 import Gaftools.Model.Gaf
 /-!
@@ -28,5 +30,10 @@ theorem pathCase_gen_eq_model (a b : Bool) : Gen.pathCase a b = Gaftools.Gfa.pat
 theorem isStable_gen_eq_model (p : List Char) : Gen.isStable p = Gaftools.Gaf.isStable p := by
   unfold Gen.isStable Gaftools.Gaf.isStable
   cases h1 : p.contains ':' <;> cases h2 : p.contains '>' <;> cases h3 : p.contains '<' <;> simp_all
+
+/-- the secondary test of `run_stat` as translated from the source is the model's `isSecondary` (C19) -/
+theorem isSecondary_gen_eq_model (r : Gaftools.Gaf.Rec) : Gen.isSecondary r.isPrimary r.mapq = Gaftools.Stat.isSecondary r := by
+  unfold Gen.isSecondary Gaftools.Stat.isSecondary
+  cases r.isPrimary <;> simp <;> omega
 
 end Gaftools.TieA
